@@ -629,3 +629,95 @@ def c17l(ctx):
             ctx.check(bool(stored) or bool(handed), '%s.__init__:%s-kept' % (cls.name, p),
                       'the %s given to %s is %s' % (p, cls.name, 'stored on the instance' if stored else 'handed to the base constructor'), init,
                       fail='%s accepts `%s` but neither stores it nor hands it to its base class: the configured %s does not gate the source' % (cls.name, p, p))
+
+
+@rule('C17.m', floor=6)
+def c17m(ctx):
+    """the coverage that decides what is asked upstream is the configured one, in one SRS: a union / difference / intersection of
+    coverages is computed from the geometries of all members *in the SRS of the first member*.  Every member geometry -- the polygon of
+    a polygon coverage and the rectangle of a bbox coverage alike -- is taken from `<member>.transform_to(srs)` (a bbox member left in
+    its own SRS collapses to a speck near 0/0 of the other SRS, and the source is contacted inside the excluded region)"""
+    n = 0
+    for nm in ('union_coverage', 'diff_coverage', 'intersection_coverage'):
+        fn = ctx.fn('mapproxy/util/coverage.py:' + nm)
+        defs = Defs(fn.node)
+
+        def transformed(e, depth=4):
+            if depth <= 0:
+                return False
+            if isinstance(e, ast.Call) and isinstance(e.func, ast.Attribute) and e.func.attr == 'transform_to':
+                return True
+            if isinstance(e, ast.Name):
+                ds = defs.of(e.id)
+                # a comprehension variable is not in Defs: look for the comprehension that binds it
+                comp = [g_ for x in fn.walk() if isinstance(x, (ast.ListComp, ast.GeneratorExp)) for g_ in x.generators
+                        if isinstance(g_.target, ast.Name) and g_.target.id == e.id and inside(e, x)]
+                if comp:
+                    return all(container(g_.iter, depth - 1) for g_ in comp)
+                if not ds:
+                    return False
+                return all(container(v, depth - 1) if sel == 'elem' else (sel is None and transformed(v, depth - 1)) for v, sel in ds)
+            return False
+
+        def container(e, depth):
+            if depth <= 0:
+                return False
+            if isinstance(e, (ast.ListComp, ast.GeneratorExp)):
+                return transformed(e.elt, depth - 1) if not isinstance(e.elt, ast.Name) else \
+                    all(container(g_.iter, depth - 1) for g_ in e.generators if isinstance(g_.target, ast.Name) and g_.target.id == e.elt.id)
+            if isinstance(e, ast.Name):
+                ds = [(v, sel) for v, sel in defs.of(e.id)]
+                return bool(ds) and all(sel is None and container(v, depth - 1) for v, sel in ds)
+            if isinstance(e, ast.Subscript) and isinstance(e.slice, ast.Slice):
+                return container(e.value, depth - 1)
+            return False
+        sites = []
+        for x in fn.walk():
+            if is_call(x, 'bbox_polygon') and x.args and isinstance(x.args[0], ast.Attribute) and x.args[0].attr == 'bbox':
+                sites.append(('bbox', x.args[0].value, x))
+            elif isinstance(x, ast.Attribute) and x.attr == 'geom' and isinstance(x.ctx, ast.Load) and not unparse(x).startswith('shapely'):
+                par = getattr(x, '_parent', None)
+                if isinstance(par, ast.Call) and is_call(par, 'append') or isinstance(par, (ast.IfExp, ast.ListComp, ast.List)):
+                    sites.append(('geom', x.value, x))
+        if len(sites) < 2:
+            raise Undecided('%s: member geometries not found' % nm)
+        for kind, owner, node in sites:
+            n += 1
+            ok = transformed(owner)
+            ctx.check(ok, '%s:%s-of-transformed-member' % (nm, kind), 'the %s of a member is taken after transform_to(<srs of the first member>)' % kind, fn, node,
+                      fail='%s uses the %s of a member coverage (%s) without transforming the member to the SRS of the first one' % (nm, kind, unparse(owner)))
+    if n < 6:
+        raise Undecided('only %d member geometries found' % n)
+
+
+SHARED_GEOMETRY_CLASSES = [('mapproxy/layer.py', 'MapExtent'), ('mapproxy/util/coverage.py', 'BBOXCoverage'), ('mapproxy/util/coverage.py', 'GeomCoverage'),
+                           ('mapproxy/util/coverage.py', 'MultiCoverage')]
+
+
+@rule('C17.n', floor=10)
+def c17n(ctx):
+    """the extent a request is clipped with is the extent of its own SRS: extents and coverages of a source are shared by all request
+    threads, so what their methods keep on the object does not depend on the request -- outside __init__ a method stores on `self`
+    only values computed from `self` (a memo of "the last SRS asked for" next to "its bbox", written one after the other, hands a
+    second thread the box of the previous SRS for the new one)"""
+    n = 0
+    for rel, cname in SHARED_GEOMETRY_CLASSES:
+        cls = ctx.repo.cls('%s:%s' % (rel, cname))
+        for fn in sorted(ctx.repo.fns_in('%s:%s.' % (rel, cname)), key=lambda f: f.qn):
+            if fn.name == '__init__' or fn.qn.count('.') != 2 + rel.count('.') - 1 and False:
+                continue
+            params = set(fn.params[1:])
+            defs = Defs(fn.node)
+            bad = []
+            for s in fn.walk():
+                if isinstance(s, (ast.Assign, ast.AugAssign)):
+                    tg = s.targets if isinstance(s, ast.Assign) else [s.target]
+                    for t in tg:
+                        if isinstance(t, ast.Attribute) and isinstance(t.value, ast.Name) and t.value.id == 'self':
+                            if depends(s.value, lambda y: isinstance(y, ast.Name) and y.id in params, defs):
+                                bad.append('self.%s = %s' % (t.attr, unparse(s.value)[:40]))
+            n += 1
+            ctx.check(not bad, '%s.%s:no-request-state-on-shared-object' % (cname, fn.name), 'nothing that depends on the arguments is stored on self', fn,
+                      fail='%s.%s stores request dependent state on an object shared between request threads (%s)' % (cname, fn.name, '; '.join(bad)))
+    if n < 10:
+        raise Undecided('only %d methods of the shared geometry classes found' % n)
